@@ -1060,7 +1060,7 @@ func TestVerifC16(t *testing.T) {
 	st.Emit("consts", dialer.VConsts())
 	nScn, maxEv := 250, 90
 	if dialer.VThorough() {
-		nScn, maxEv = 2500, 110
+		nScn, maxEv = 4000, 110
 	}
 	nScn = dialer.VEnvInt("VERIF_C16_SCENARIOS", nScn)
 	for i := -1; i < nScn+1; i++ {
